@@ -259,3 +259,49 @@ PROPS['C11'] = dict(
            dict(name='gfpart_diag_2x2', harness='h_gfpart', defs=['OUTER=2', 'INNER=2', 'REGIME=4'], split={'C': R(16)}, tiers=[T],
                 witnesses=['computed', 'diagonal_checked'], validate=[{'C': 15}])],
 )
+
+_IMG3 = [-1, 0, 1, 2]
+_IMG2 = [-1, 0, 1]
+PROPS['C08'] = dict(
+    claim='The numerical agreement of two complete runs cannot be encoded (it passes twice through the eigen-solver).  Decided instead are '
+          'the structural conditions under which the observables do not depend on the partition, for ARBITRARY admissible block bimaps '
+          '(not only those of the default partition): the four world-stripe selectors select exactly the block tuples on which the operator '
+          'product can be non-zero; splitting a block pair leaves the sum of part values unchanged; (C07 units:) every accepted partition '
+          'has the single-target property.',
+    bounds={Q: 'G / susceptibility / ensemble-average selectors over 3 blocks (all partial injections incl. self-maps and non-monotone maps), '
+               '2PGF selector over 2 blocks (all 7^4 bimap combinations), splitting of a 2x2 block pair',
+            T: '2PGF selector over 3 blocks restricted to bijective CX4'},
+    assumptions=['invariance of a trace under regrouping of an orthonormal eigenbasis (mathematical step)',
+                 'Eigen::SelfAdjointEigenSolver contract (C03)'],
+    outside=['numerical agreement of complete runs under different partitions'],
+    units=[dict(name='select_g_b3', harness='h_select', defs=['SEL=0', 'NBLOCKS=3', 'SYMRET=0'], split={'c0': _IMG3, 'c1': _IMG3},
+                witnesses=['done', 'self_map_stripe', 'two_stripes', 'vanishing']),
+           dict(name='select_chi_b3', harness='h_select', defs=['SEL=1', 'NBLOCKS=3', 'SYMRET=0'], split={'a0': _IMG3, 'a1': _IMG3},
+                witnesses=['done', 'self_map_stripe', 'two_stripes', 'vanishing']),
+           dict(name='select_avg_b3', harness='h_select', defs=['SEL=2', 'NBLOCKS=3', 'SYMRET=0'], witnesses=['done', 'diagonal_block', 'offdiagonal_block_ignored']),
+           dict(name='select_2pgf_b2', harness='h_select', defs=['SEL=3', 'NBLOCKS=2', 'SYMRET=0'], split={'c10': _IMG2, 'c11': _IMG2, 'c20': _IMG2},
+                witnesses=['done', 'two_cycles']),
+           dict(name='gfpart_split', harness='h_gfpart', defs=['OUTER=2', 'INNER=2', 'REGIME=6'], split={'C': [0, 1, 8, 9], 'CX': [0, 1, 8, 9]},
+                witnesses=['computed', 'split_compared'], validate=[{'C': 9, 'CX': 9}])],
+)
+
+PROPS['C19'] = dict(
+    claim='Truncation logic on the real code: a block is discarded iff none of its weights exceeds eps (symbolic weights and eps, incl. eps = 0); '
+          'the four selectors skip a world stripe only if ALL its blocks are discarded (symbolic retained flags, arbitrary bimaps); a discarded '
+          '1x1 Green-function stripe contributes at most 2 eps |C CX| / |Im z|.',
+    bounds={Q: 'selectors: 3 blocks (G, susceptibility, average), 2 blocks (2PGF, all bimaps); truncate on the density matrices of C09 units; '
+               '1x1 part bound', T: 'same'},
+    assumptions=['sum over parts of |C CX| <= dimension (mathematical step giving 2 eps dim/|Im z| for G)', 'double read as exact real'],
+    outside=['bounds for the 2PGF / susceptibility deviation (only the skipping rule is decided)'],
+    units=[dict(name='select_g_b3_ret', harness='h_select', defs=['SEL=0', 'NBLOCKS=3', 'SYMRET=1'], split={'c0': _IMG3, 'c1': _IMG3},
+                witnesses=['done', 'stripe_skipped_all_discarded', 'stripe_kept_with_one_discarded_block']),
+           dict(name='select_chi_b3_ret', harness='h_select', defs=['SEL=1', 'NBLOCKS=3', 'SYMRET=1'], split={'a0': _IMG3, 'a1': _IMG3},
+                witnesses=['done', 'stripe_skipped_all_discarded', 'stripe_kept_with_one_discarded_block']),
+           dict(name='select_avg_b3_ret', harness='h_select', defs=['SEL=2', 'NBLOCKS=3', 'SYMRET=1'], witnesses=['done', 'diagonal_block_discarded']),
+           dict(name='select_2pgf_b2_ret', harness='h_select', defs=['SEL=3', 'NBLOCKS=2', 'SYMRET=1'], split={'c10': _IMG2, 'c11': _IMG2, 'c20': _IMG2},
+                witnesses=['done', 'cycle_skipped_all_discarded', 'cycle_kept_only_by_last_block']),
+           dict(name='truncate_dm_m1', harness='h_dm', defs=['MODEL=1', 'VEC=0'], split={'gs': R(4)}, resolve_selects=True, max_loop=20000,
+                witnesses=['done', 'block_discarded']),
+           dict(name='gfpart_discarded_bound', harness='h_gfpart', defs=['OUTER=1', 'INNER=1', 'REGIME=5'], witnesses=['computed', 'bound_checked'],
+                validate=[{'C': 1, 'CX': 1, 'eps': '1/100', 'win0': '1/200', 'wout0': '1/300'}])],
+)
